@@ -144,6 +144,8 @@ class Job:
         """-> (observation, calls) for: target prepared with the closed subset S, then `op` of revision rev, twice."""
         calls = []
         o = {"outcome": "ok"}
+        if self.remote:      # a connection of its own per case: a request that failed half-way must not poison the next case
+            self.rt, self.medium = world.inproc_remote_transport(self.root)
         try:
             if op == "sprout":
                 self.count += 1
@@ -158,7 +160,7 @@ class Job:
             objs, _ = self.do_op(op, rev, name)
         except Exception as e:
             o["outcome"] = "error:%s" % type(e).__name__
-            o["detail"] = "%s: %s" % (calls[-1], str(e)[:200])
+            o["detail"] = "%s: %s" % (calls[-1] if calls else "open", str(e)[:200])
             return o, calls
         try:
             o.update(self.observe_target(name))
